@@ -784,8 +784,20 @@ def run_history(case, verbose=False):
                 for c in sorted(have[t] - exp[t]):
                     mon.append(['orphan-column', names.table(t), names.column(c)])
         ops = [names.op(o) for o in sim.ops]
-        if st.get('k') == 'rename' and ops:
-            mon.append(['rename-touches-storage', ops[:6]])
+        if st.get('k') in ('rename', 'SA', 'SR') and ops:
+            # renames, abstract<->concrete, required<->optional must not create or drop anything
+            mon.append(['rename-touches-storage' if st.get('k') == 'rename' else 'neutral-command-touches-storage',
+                        ops[:6]])
+        if exp is not None:
+            # "no command drops storage that is still in use": something dropped by this step that the
+            # layout of the RESULTING schema addresses was dropped and re-created (its data is gone)
+            for verb, tab, col in sim.ops:
+                if tab[0] != USER_PG_SCHEMA:
+                    continue
+                if verb == 'DT' and tab in exp:
+                    mon.append(['drops-storage-in-use', names.table(tab)])
+                elif verb == 'DC' and tab in exp and col in exp[tab] and ('DT', tab, None) not in sim.ops:
+                    mon.append(['drops-storage-in-use', names.table(tab), names.column(col)])
         try:
             nref, bad = ptrref_check(cur)
             r['nref'] = nref
